@@ -20,47 +20,63 @@ Require Import TL.Model.Temporal.
 Require Import TL.Model.Scalars.
 Require TL.Model.Core.
 Require TL.Model.CoreC01.
+Require TL.Model.Serdes.
 Local Open Scope nat_scope.
 
 (* the scalar leaf types of typelib that the C04 model covers (bool and Pattern are not in [val]) *)
 Inductive leafkind :=
-| LInt | LFloat | LStr | LBytes | LDec | LFrac | LUuid | LPath | LEnum | LDate | LDateTime | LTime | LTimeDelta.
-
-Definition leafkind_eqb (a b : leafkind) : bool :=
-  match a, b with
-  | LInt, LInt | LFloat, LFloat | LStr, LStr | LBytes, LBytes | LDec, LDec | LFrac, LFrac | LUuid, LUuid
-  | LPath, LPath | LEnum, LEnum | LDate, LDate | LDateTime, LDateTime | LTime, LTime | LTimeDelta, LTimeDelta => true
-  | _, _ => false end.
+| LInt | LFloat | LStr | LBytes | LDec | LFrac | LUuid | LPath | LEnum | LDate | LDateTime | LTime | LTimeDelta
+| LBool | LPattern | LNone | LLit (vs : list val).        (* Literal[vs]: the declared values *)
 
 (* ---------------------------------------------------------------- 1. the marshal side *)
+(* member.__class__ is val.__class__ (enum members, paths, patterns: the class is part of the token) *)
+Definition same_class (m v : val) : bool :=
+  match m, v with
+  | VNone, VNone | VBool _, VBool _ | VInt _, VInt _ | VFloat _, VFloat _ | VDec _, VDec _ | VFrac _, VFrac _
+  | VUuid _, VUuid _ | VDate _ _ _, VDate _ _ _ | VDateTime _, VDateTime _ | VTime _, VTime _
+  | VTimeDelta _ _ _, VTimeDelta _ _ _ => true
+  | VText c _, VText c' _ => carrier_eqb c c'
+  | VEnum a, VEnum b | VPath a, VPath b | VPattern a, VPattern b | VOther a, VOther b => String.eqb a b
+  | _, _ => false end.
+(* the values a Literal may legally declare: None, bool, int, str, bytes, enum members *)
+Definition lit_plain (x : val) : bool :=
+  match x with VNone | VBool _ | VInt _ | VText CStr _ | VText CBytes _ | VEnum _ => true | _ => false end.
+
 Section Marshallers.
 Variable rt : Runtime.
 Variable ev : tok -> res val.                 (* m.value of the enum member m (interpreter) *)
 
-(* IntegerMarshaller = CastMarshaller[int]: int(val) *)
+(* IntegerMarshaller = CastMarshaller[int]: int(val); True is 1, a member of a mixin enum is converted as the int /
+   str it is *)
 Definition mar_int (v : val) : res val :=
-  match v with
-  | VInt _ => Ok v
+  match view rt v with
+  | VInt z => Ok (VInt z)
+  | VBool b => Ok (VInt (b2z b))
   | VFloat f => int_of_float rt f >>= fun z => Ok (VInt z)
   | VText CStr s => int_of_str rt s >>= fun z => Ok (VInt z)
-  | VNone | VPath _ | VDate _ _ _ | VDateTime _ | VTime _ | VTimeDelta _ _ _ => Raise EType
-  | _ => Unmodelled end.                      (* int(bytes), int(Decimal), int(UUID), int(IntEnum member), bool *)
+  | VNone | VPath _ | VDate _ _ _ | VDateTime _ | VTime _ | VTimeDelta _ _ _ | VPattern _ | VEnum _ => Raise EType
+  | _ => Unmodelled end.                      (* int(bytes), int(Decimal), int(UUID) *)
 
 (* FloatMarshaller = CastMarshaller[float]: float(val) *)
 Definition mar_float (v : val) : res val :=
-  match v with
-  | VFloat _ => Ok v
+  match view rt v with
+  | VFloat f => Ok (VFloat f)
   | VInt z => float_of_int rt z >>= fun f => Ok (VFloat f)
+  | VBool b => float_of_int rt (b2z b) >>= fun f => Ok (VFloat f)
   | VText CStr s => float_of_str rt s >>= fun f => Ok (VFloat f)
-  | VNone | VPath _ | VDate _ _ _ | VDateTime _ | VTime _ | VTimeDelta _ _ _ => Raise EType
+  | VNone | VPath _ | VDate _ _ _ | VDateTime _ | VTime _ | VTimeDelta _ _ _ | VPattern _ | VEnum _ => Raise EType
   | _ => Unmodelled end.
 
+(* bool is an int to the dispatch (isintegertype): IntegerMarshaller = CastMarshaller[bool]: bool(val) *)
+Definition mar_bool (v : val) : res val := truth rt v >>= fun b => Ok (VBool b).
+
 (* ToStringMarshaller (str, Decimal, Fraction, UUID, Path): str(val).
-   canon_text is str(v) except for datetime (isoformat has 'T', str a space), timedelta, bytes-like and enum values *)
+   canon_text is str(v) except for datetime (isoformat has 'T', str a space), timedelta, bytes-like values and
+   patterns *)
 Definition mar_tostring (v : val) : res val :=
   match v with
   | VText CStr _ => Ok v
-  | VNone | VInt _ | VFloat _ | VDec _ | VFrac _ | VUuid _ | VPath _ | VDate _ _ _ | VTime _ =>
+  | VNone | VBool _ | VInt _ | VFloat _ | VDec _ | VFrac _ | VUuid _ | VPath _ | VDate _ _ _ | VTime _ | VEnum _ =>
       Ok (VText CStr (canon_text rt v))
   | _ => Unmodelled end.
 
@@ -83,9 +99,20 @@ Definition mar_enum (v : val) : res val :=
 (* BytesMarshaller = NoOpMarshaller[bytes] *)
 Definition mar_noop (v : val) : res val := Ok v.
 
-(* NoneTypeUnmarshaller.__call__ *)
-Definition unm_none (v : val) : res val :=
-  decode rt v >>= fun d => match d with VNone => Ok VNone | _ => Raise EValue end.
+(* PatternMarshaller: val.pattern (a str, or a bytes object for a bytes pattern; the flags are not written) *)
+Definition mar_pattern (v : val) : res val :=
+  match v with
+  | VPattern p => Ok (pattern_text rt p)
+  | VOther _ => Unmodelled
+  | _ => Raise EOther end.                                        (* AttributeError *)
+
+(* NoneTypeMarshaller *)
+Definition mar_none (v : val) : res val := match v with VNone => Ok VNone | _ => Raise EValue end.
+
+(* LiteralMarshaller: the first declared value that equals val AND has its class; that value is returned *)
+Definition lit_match (v m : val) : bool := same_class m v && eqv rt m v.
+Definition mar_literal (vs : list val) (v : val) : res val :=
+  match find (lit_match v) vs with Some m => Ok m | None => Raise EValue end.
 
 (* the table: leaf kind -> (unmarshal routine of Scalars.v, marshal routine) *)
 Definition unm_of (k : leafkind) : val -> res val :=
@@ -93,22 +120,48 @@ Definition unm_of (k : leafkind) : val -> res val :=
   | LInt => unm_number rt KInt | LFloat => unm_number rt KFloat | LDec => unm_number rt KDec
   | LFrac => unm_number rt KFrac | LStr => unm_str rt | LBytes => unm_bytes rt | LUuid => unm_uuid rt
   | LPath => unm_path rt | LEnum => unm_enum rt | LDate => unm_date rt | LDateTime => unm_datetime rt
-  | LTime => unm_time rt | LTimeDelta => unm_timedelta rt end.
+  | LTime => unm_time rt | LTimeDelta => unm_timedelta rt
+  | LBool => unm_number rt KBool | LPattern => unm_pattern rt | LNone => unm_none rt
+  | LLit vs => unm_literal rt vs end.
 Definition mar_of (k : leafkind) : val -> res val :=
   match k with
-  | LInt => mar_int | LFloat => mar_float
+  | LInt => mar_int | LFloat => mar_float | LBool => mar_bool
   | LStr | LDec | LFrac | LUuid | LPath => mar_tostring
   | LBytes => mar_noop | LEnum => mar_enum
-  | LDate | LDateTime | LTime | LTimeDelta => mar_iso end.
+  | LDate | LDateTime | LTime | LTimeDelta => mar_iso
+  | LPattern => mar_pattern | LNone => mar_none | LLit vs => mar_literal vs end.
 Definition leaf_table (k : leafkind) : (val -> res val) * (val -> res val) := (unm_of k, mar_of k).
 
-(* ---------------------------------------------------------------- 2. shapes and ranges *)
-(* x is an instance of the class of kind k (what isinstance(x, self.t) sees) *)
-Definition shape (k : leafkind) (x : val) : bool :=
+(* ---------------------------------------------------------------- 2. classes and ranges *)
+(* isinstance(x, self.t): True is an int, a member of a mixin enum is a str / an int; for Literal: x in values *)
+Definition inst (k : leafkind) (x : val) : bool :=
+  match k with
+  | LInt => isinstance_num rt KInt x | LFloat => isinstance_num rt KFloat x | LDec => isinstance_num rt KDec x
+  | LFrac => isinstance_num rt KFrac x | LBool => isinstance_num rt KBool x
+  | LStr => match as_str rt x with Some _ => true | None => false end
+  | LBytes => match x with VText CBytes _ => true | _ => false end
+  | LUuid => match x with VUuid _ => true | _ => false end
+  | LPath => match x with VPath _ => true | _ => false end
+  | LEnum => match x with VEnum m => is_member rt m | _ => false end
+  | LDate => match x with VDate _ _ _ => true | _ => false end
+  | LDateTime => match x with VDateTime _ => true | _ => false end
+  | LTime => match x with VTime _ => true | _ => false end
+  | LTimeDelta => match x with VTimeDelta _ _ _ => true | _ => false end
+  | LPattern => match x with VPattern _ => true | _ => false end
+  | LNone => match x with VNone => true | _ => false end
+  | LLit vs => mem rt x vs end.
+(* what a routine may return: an instance; for an enum class some member (that E(v) is a member of E is the
+   interpreter's business), for a Literal a value == to a declared one (C03: resolved in favour of the code) *)
+Definition cls (k : leafkind) (x : val) : bool :=
+  match k, x with LEnum, VEnum _ => true | _, _ => inst k x end.
+(* type(x) is self.t exactly (C01: "made of exactly the annotated classes"); Literal: one of the declared values *)
+Definition exact (k : leafkind) (x : val) : bool :=
   match k, x with
   | LInt, VInt _ | LFloat, VFloat _ | LStr, VText CStr _ | LBytes, VText CBytes _ | LDec, VDec _ | LFrac, VFrac _
-  | LUuid, VUuid _ | LPath, VPath _ | LEnum, VEnum _ | LDate, VDate _ _ _ | LDateTime, VDateTime _
-  | LTime, VTime _ | LTimeDelta, VTimeDelta _ _ _ => true
+  | LUuid, VUuid _ | LPath, VPath _ | LDate, VDate _ _ _ | LDateTime, VDateTime _
+  | LTime, VTime _ | LTimeDelta, VTimeDelta _ _ _ | LBool, VBool _ | LPattern, VPattern _ | LNone, VNone => true
+  | LEnum, VEnum m => is_member rt m
+  | LLit vs, _ => lit_plain x && existsb (val_eqb x) vs
   | _, _ => false end.
 
 (* the value of a member as EnumUnmarshaller can look it up: not a member itself, not a bytes-like value
@@ -119,24 +172,31 @@ Definition res_tok_is (r : res tok) (m : tok) : bool := match r with Ok m' => St
 (* E(m.value) is m *)
 Definition enum_value_ok (m : tok) : bool :=
   match ev m with Ok w => plain w && res_tok_is (enum_of_val rt w) m | _ => false end.
+(* a str pattern without flags: re.compile(p.pattern) is p *)
+Definition pattern_ok (p : tok) : bool :=
+  match pattern_text rt p with VText CStr s => res_tok_is (re_compile rt s) p | _ => false end.
 
 (* inside the range the scalar round trip is stated for; strict: the fold (which is not part of the text) is 0 *)
-Definition range (strict : bool) (x : val) : bool :=
-  match x with
-  | VEnum m => enum_value_ok m
-  | VDate y m d => valid_date y m d
-  | VDateTime d => valid_dt d && (negb strict || Z.eqb (dfold d) 0)
-  | VTime t => valid_tm t && (negb strict || Z.eqb (tfold t) 0)
-  | VTimeDelta d s us => td_in_range (d, s, us)
-  | _ => true end.
-Definition in_kind (strict : bool) (k : leafkind) (x : val) : bool := shape k x && range strict x.
+Definition range (strict : bool) (k : leafkind) (x : val) : bool :=
+  match k, x with
+  | LLit _, _ => true                         (* a declared value comes back whatever it is *)
+  | _, VEnum m => enum_value_ok m
+  | _, VPattern p => pattern_ok p
+  | _, VDate y m d => valid_date y m d
+  | _, VDateTime d => valid_dt d && (negb strict || Z.eqb (dfold d) 0)
+  | _, VTime t => valid_tm t && (negb strict || Z.eqb (tfold t) 0)
+  | _, VTimeDelta d s us => td_in_range (d, s, us)
+  | _, _ => true end.
+Definition in_kind (strict : bool) (k : leafkind) (x : val) : bool := exact k x && range strict k x.
 
-(* wire data: None / int / float / str of the exact builtin class *)
+(* wire data: None / bool / int / float / str of the exact builtin class *)
 Definition prim_val (x : val) : bool :=
-  match x with VNone | VInt _ | VFloat _ | VText CStr _ => true | _ => false end.
+  match x with VNone | VBool _ | VInt _ | VFloat _ | VText CStr _ => true | _ => false end.
 (* kinds whose marshal routine returns wire data on every input it accepts (EnumMarshaller returns whatever the
-   member's value is, NoOpMarshaller[bytes] returns its input) *)
-Definition robust_kind (k : leafkind) : bool := match k with LEnum | LBytes => false | _ => true end.
+   member's value is, NoOpMarshaller[bytes] its input, PatternMarshaller bytes for a bytes pattern, LiteralMarshaller
+   a declared value) *)
+Definition robust_kind (k : leafkind) : bool :=
+  match k with LEnum | LBytes | LPattern => false | LLit vs => forallb prim_val vs | _ => true end.
 
 End Marshallers.
 
@@ -218,8 +278,13 @@ Definition run_leaf (f : val -> res val) (p : Core.pv) : Core.res Core.pv :=
 
 Definition b_leaf_u (s : nat) (p : Core.pv) : Core.res Core.pv :=
   match kind_of s with Some k => run_leaf (unm_of (rts s) k) p | None => Core.Unmodelled end.
+(* LiteralMarshaller on a container or an object outside the coding: no declared value has its class (the declared
+   values are in the coding): ValueError *)
 Definition b_leaf_m (s : nat) (p : Core.pv) : Core.res Core.pv :=
-  match kind_of s with Some k => run_leaf (mar_of (rts s) ev k) p | None => Core.Unmodelled end.
+  match kind_of s with
+  | Some (LLit vs) => match decp p with Some x => lift (mar_literal (rts s) vs x) | None => Core.Raise Core.EValue end
+  | Some k => run_leaf (mar_of (rts s) ev k) p
+  | None => Core.Unmodelled end.
 Definition b_none : Core.pv := Core.PAtom (enc C VNone).
 (* a container, or an object that is not in the coding, is not None (None is in the coding): decode hands it back or
    raises, then ValueError *)
@@ -247,14 +312,21 @@ Definition on_scalar (f : val -> bool) (p : Core.pv) : bool :=
 (* leaf validity: v stands for a value of kind s inside its range *)
 Definition lv (strict : bool) (s : nat) (v : Core.pv) : bool :=
   match kind_of s with Some k => on_scalar (in_kind (rts s) ev strict k) v | None => false end.
+(* ... an instance of the class of leaf type s (isinstance: what the pass-through needs) *)
+Definition lv_inst (s : nat) (v : Core.pv) : bool :=
+  match kind_of s with Some k => on_scalar (inst (rts s) k) v | None => false end.
 (* v is of the class of leaf type s (C03's leaf_ok) *)
 Definition leaf_class_ok (s : nat) (v : Core.pv) : bool :=
-  match kind_of s with Some k => on_scalar (shape k) v | None => false end.
+  match kind_of s with Some k => on_scalar (cls (rts s) k) v | None => false end.
 (* C06's parameters *)
 Definition prim_atom (a : nat) : bool := on_scalar prim_val (Core.PAtom a).
 Definition robust_leaf (s : nat) : bool := match kind_of s with Some k => robust_kind k | None => false end.
-Definition no_literal (s : nat) : bool := false.
-Definition no_member (s : nat) (v : Core.pv) : bool := false.
+Definition lit_leaf (s : nat) : bool := match kind_of s with Some (LLit _) => true | _ => false end.
+(* some declared value equals v and has its class *)
+Definition lit_member (s : nat) (v : Core.pv) : bool :=
+  match kind_of s with
+  | Some (LLit vs) => on_scalar (fun x => existsb (lit_match (rts s) x) vs) v
+  | _ => false end.
 
 (* equality up to the fold of the values they stand for *)
 Definition sim_pv (v v' : Core.pv) : Prop :=
@@ -292,7 +364,9 @@ Definition tokens_of (v : val) : list nat :=
                       ++ toz (doff d) ++ tz (dfold d)
   | VTime t => 11 :: tz (th t) ++ tz (tmi t) ++ tz (ts t) ++ tz (tus t) ++ toz (toff t) ++ tz (tfold t)
   | VTimeDelta d s us => 12 :: tz d ++ tz s ++ tz us
-  | VOther t => 13 :: tstr t end.
+  | VOther t => 13 :: tstr t
+  | VBool b => [14; if b then 1 else 0]
+  | VPattern t => 15 :: tstr t end.
 
 Definition obind {A B} (o : option A) (f : A -> option B) : option B := match o with Some a => f a | None => None end.
 Definition pz (l : list nat) : option (Z * list nat) :=
@@ -341,6 +415,8 @@ Definition val_of_tokens (l : list nat) : option val :=
   | 12 :: r => obind (pz r) (fun '(d, r1) => obind (pz r1) (fun '(s, r2) => obind (pz r2) (fun '(us, _) =>
                Some (VTimeDelta d s us))))
   | 13 :: r => ptag VOther r
+  | 14 :: b :: _ => Some (VBool (Nat.eqb b 1))
+  | 15 :: r => ptag VPattern r
   | _ => None end.
 
 (* tokens -> bits: n as n ones and a zero *)
@@ -375,7 +451,8 @@ Definition with_enum (rt : Runtime) (f : val -> res tok) : Runtime := {|
   float_of_int := float_of_int rt; load := load rt; pendulum_parse := pendulum_parse rt;
   time_fromisoformat := time_fromisoformat rt; fromtimestamp_utc := fromtimestamp_utc rt;
   timestamp := timestamp rt; td_total_seconds := td_total_seconds rt; td_of_seconds := td_of_seconds rt;
-  is_digit_str := is_digit_str rt |}.
+  is_digit_str := is_digit_str rt; is_member := is_member rt; enum_base := enum_base rt; py_eq := py_eq rt;
+  truthy := truthy rt; re_compile := re_compile rt; pattern_text := pattern_text rt |}.
 (* ... with another duration parser *)
 Definition with_parse (rt : Runtime) (p : string -> res parsed) : Runtime := {|
   utf8_decode := utf8_decode rt; utf8_encode := utf8_encode rt; canon_text := canon_text rt;
@@ -385,7 +462,8 @@ Definition with_parse (rt : Runtime) (p : string -> res parsed) : Runtime := {|
   float_of_int := float_of_int rt; load := load rt; pendulum_parse := p;
   time_fromisoformat := time_fromisoformat rt; fromtimestamp_utc := fromtimestamp_utc rt;
   timestamp := timestamp rt; td_total_seconds := td_total_seconds rt; td_of_seconds := td_of_seconds rt;
-  is_digit_str := is_digit_str rt |}.
+  is_digit_str := is_digit_str rt; is_member := is_member rt; enum_base := enum_base rt; py_eq := py_eq rt;
+  truthy := truthy rt; re_compile := re_compile rt; pattern_text := pattern_text rt |}.
 (* a parser that is strict about ISO 8601: the dangling 'PT' is rejected *)
 Definition strict_parse (p : string -> res parsed) (s : string) : res parsed :=
   if String.eqb s "PT"%string then Raise EValue else p s.
@@ -396,10 +474,13 @@ Definition bytes_enum_of_val (v : val) : res tok :=
 Definition bytes_enum_value (m : tok) : res val :=
   if String.eqb m "E.c"%string then Ok (VText CBytes "yy"%string) else Raise EOther.
 
-(* the example instance: leaf ids 0 int, 1 date, 2 timedelta, 3 Decimal, 4 enum (str values), 5 datetime, 6 str *)
+(* the example instance: leaf ids 0 int, 1 date, 2 timedelta, 3 Decimal, 4 enum (str values), 5 datetime, 6 str,
+   7 bool, 8 Literal[1, "a", None], 9 Pattern *)
+Definition ex_lit : list val := [VInt 1; VText CStr "a"%string; VNone].
 Definition ex_kinds (s : nat) : option leafkind :=
   match s with 0 => Some LInt | 1 => Some LDate | 2 => Some LTimeDelta | 3 => Some LDec | 4 => Some LEnum
-             | 5 => Some LDateTime | 6 => Some LStr | _ => None end.
+             | 5 => Some LDateTime | 6 => Some LStr | 7 => Some LBool | 8 => Some (LLit ex_lit) | 9 => Some LPattern
+             | _ => None end.
 Definition ex_ev (m : tok) : res val := Ok (VText CStr m).            (* the toy enum: the member's value is its token *)
 Definition ex_base : Core.runtime := {|
   Core.leaf_u := fun _ _ => Core.Unmodelled; Core.leaf_m := fun _ _ => Core.Unmodelled;
@@ -413,15 +494,66 @@ Definition ex_dt : dtf :=
   {| dy := 2020; dmo := 1; dd := 1; dh := 17; dmi := 0; ds := 0; dus := 999999; doff := Some 19800%Z; dfold := 0 |}.
 Definition ex_dt_fold1 : dtf :=
   {| dy := 2020; dmo := 1; dd := 1; dh := 17; dmi := 0; ds := 0; dus := 999999; doff := Some 19800%Z; dfold := 1 |}.
-(* list[tuple[int, date, timedelta, Decimal, E, datetime, str, str]] *)
+(* list[tuple[int, date, timedelta, Decimal, E, datetime, str, str, bool, Literal[1, "a", None], Literal[..], Pattern]] *)
 Definition ex_T : Core.ty :=
   Core.TSeq Core.KList (Core.TTuple [Core.TLeaf 0; Core.TLeaf 1; Core.TLeaf 2; Core.TLeaf 3; Core.TLeaf 4; Core.TLeaf 5;
-                                     Core.TLeaf 6; Core.TLeaf 6]).
+                                     Core.TLeaf 6; Core.TLeaf 6; Core.TLeaf 7; Core.TLeaf 8; Core.TLeaf 8; Core.TLeaf 9]).
 Definition ex_vals : list val :=
   [VInt (-12345); VDate 2024 2 29; VTimeDelta (-8) 3661 500; VDec "1.50"%string; VEnum "one"%string; VDateTime ex_dt;
-   VText CStr "kids"%string; VText CStr "null"%string].
+   VText CStr "kids"%string; VText CStr "null"%string; VBool true; VText CStr "a"%string; VNone; VPattern "x+"%string].
 Definition ex_wire : list val :=
   [VInt (-12345); VText CStr "2024-02-29"%string; VText CStr "-P7DT22H58M58.999500S"%string; VText CStr "1.50"%string; VText CStr "one"%string;
-   VText CStr "2020-01-01T17:00:00.999999+05:30"%string; VText CStr "kids"%string; VText CStr "null"%string].
+   VText CStr "2020-01-01T17:00:00.999999+05:30"%string; VText CStr "kids"%string; VText CStr "null"%string;
+   VBool true; VText CStr "a"%string; VNone; VText CStr "x+"%string].
 Definition ex_pv (C : coding) (k : Core.seqkind) (l : list val) : Core.pv :=
   Core.PSeq Core.KList [Core.PSeq k (map (encp C) l)].
+
+(* ---------------------------------------------------------------- 6. serdes.load from C14's model (Model/Serdes.v) *)
+(* [sshape]: how the text model of C14 sees a scalar of the scalar model (its Serdes.pv: a text carrier or not), and
+   which scalar a decoded value is.  Explicit argument of everything below, as the tshape of Model/IoBridge.v. *)
+Module S := TL.Model.Serdes.
+Record sshape := {
+  v_ser : val -> S.pv;
+  v_back : S.pv -> option val
+}.
+Definition sexn_dn (e : S.exn) : option exn :=
+  match e with
+  | S.EValue | S.EUnicode => Some EValue | S.EType => Some EType | S.EUnmodelled => None | _ => Some EOther end.
+(* Runtime.load DEFINED from the text model *)
+Definition ind_load (T : sshape) (srt : S.Runtime) (v : val) : res val :=
+  match S.load srt (v_ser T v) with
+  | S.Ok x => match v_back T x with Some y => Ok y | None => Unmodelled end
+  | S.Raise e => match sexn_dn e with Some e' => Raise e' | None => Unmodelled end end.
+(* the law that ties the load field of a scalar runtime to the text model *)
+Definition SLoadLaw (T : sshape) (srt : S.Runtime) (rt : Runtime) : Prop := forall v, load rt v = ind_load T srt v.
+(* inspection.istexttype(val.__class__): text carriers, and members of str / bytes mixin enums *)
+Definition textual (rt : Runtime) (v : val) : bool := match view rt v with VText _ _ => true | _ => false end.
+Record SShapeLaws (T : sshape) (rt : Runtime) : Prop := {
+  ss_nontext : forall v, textual rt v = false -> S.is_text (v_ser T v) = false;
+  ss_back : forall v, textual rt v = false -> v_back T (v_ser T v) = Some v
+}.
+Definition with_load (rt : Runtime) (f : val -> res val) : Runtime := {|
+  utf8_decode := utf8_decode rt; utf8_encode := utf8_encode rt; canon_text := canon_text rt;
+  int_of_str := int_of_str rt; float_of_str := float_of_str rt; dec_of_str := dec_of_str rt;
+  frac_of_str := frac_of_str rt; uuid_of_str := uuid_of_str rt; uuid_of_int := uuid_of_int rt;
+  path_of_str := path_of_str rt; enum_of_val := enum_of_val rt; int_of_float := int_of_float rt;
+  float_of_int := float_of_int rt; load := f; pendulum_parse := pendulum_parse rt;
+  time_fromisoformat := time_fromisoformat rt; fromtimestamp_utc := fromtimestamp_utc rt;
+  timestamp := timestamp rt; td_total_seconds := td_total_seconds rt; td_of_seconds := td_of_seconds rt;
+  is_digit_str := is_digit_str rt; is_member := is_member rt; enum_base := enum_base rt; py_eq := py_eq rt;
+  truthy := truthy rt; re_compile := re_compile rt; pattern_text := pattern_text rt |}.
+(* a concrete shape: text carriers by their character codes, every other scalar an opaque object named by its atom *)
+Definition codes (s : string) : list N := map N_of_ascii (list_ascii_of_string s).
+Definition uncodes (l : list N) : string := string_of_list_ascii (map ascii_of_N l).
+Definition std_ckind (c : carrier) : S.ckind :=
+  match c with CStr => S.CStr | CBytes => S.CBytes | CBytearray => S.CBytearray | CMvBytes => S.CMemviewRO
+             | CMvBytearray => S.CMemviewRW end.
+Definition std_sshape : sshape := {|
+  v_ser := fun v => match v with
+                    | VText c s => S.PText (std_ckind c) (codes s)
+                    | _ => S.POther (N.of_nat (std_enc v)) end;
+  v_back := fun x => match x with
+                     | S.POther id => std_dec (N.to_nat id)
+                     | S.PText S.CStr p => Some (VText CStr (uncodes p))
+                     | S.PNone => Some VNone | S.PBool b => Some (VBool b) | S.PInt z => Some (VInt z)
+                     | _ => None end |}.
